@@ -21,6 +21,7 @@ type c14PushCase struct {
 	Cap     int    `json:"cap"`
 	Prefill int    `json:"prefill"`
 	NoNest  bool   `json:"no_nesting"`
+	Mutex   bool   `json:"mutex,omitempty"`
 }
 
 var errReject = [4]error{errors.New("reject class 0"), errors.New("reject class 1"), errors.New("reject class 2"), errors.New("reject class 3")}
@@ -67,6 +68,9 @@ func c14PushRun(c *Ctx, cs c14PushCase, count bool) {
 	if cs.NoNest {
 		s.SetNoNesting(true)
 	}
+	if cs.Mutex {
+		s.SetMutex()
+	}
 	var log []any
 	s.SetPushPolicy(func(x ...any) error {
 		if len(x) != 1 {
@@ -89,9 +93,37 @@ func c14PushRun(c *Ctx, cs c14PushCase, count bool) {
 		c.Traces.Add(1)
 	}
 	desc := fmt.Sprintf("%s cap=%d prefill=%d no-nesting=%v policy-accepts=%03b Push%v", cs.Kind, cs.Cap, cs.Prefill, cs.NoNest, cs.Policy, showTypes(batch))
-	if p := noPanic(func() { s.Push(batch...) }); p != "" {
+	dead := false
+	p := func() (msg string) {
+		defer func() {
+			if r := recover(); r != nil {
+				if _, ok := r.(deadlockPanic); ok {
+					dead = true
+					heldMutexes.Range(func(k, _ any) bool { heldMutexes.Delete(k); return true })
+					return
+				}
+				msg = fmt.Sprint(r)
+			}
+		}()
+		s.Push(batch...)
+		return ""
+	}()
+	if dead {
+		c.Violation("deadlock:Push", desc+" (mutex enabled): Push tries to take the stack's lock while holding it", cs, len(cs.Batch))
+		return
+	}
+	if p != "" {
 		c.Violation("panic:Push", desc+" panicked: "+p, cs, len(cs.Batch))
 		return
+	}
+	if cs.Mutex {
+		if m := stackage.VerifDump(s).Mtx; m != 0 {
+			if _, held := heldMutexes.Load(m); held {
+				heldMutexes.Delete(m)
+				c.Violation("lock-leaked:Push", desc+": the mutex is still held after Push returned", cs, len(cs.Batch))
+				return
+			}
+		}
 	}
 	// reference
 	content := append([]any{}, pre...)
@@ -163,7 +195,10 @@ func c14PushCases(c *Ctx) []c14PushCase {
 							if nn && (pre != 0 || cp == 3) {
 								continue
 							}
-							out = append(out, c14PushCase{k, pol, b, cp, pre, nn})
+							out = append(out, c14PushCase{k, pol, b, cp, pre, nn, false})
+							if len(b) <= 2 || cp == 2 {
+								out = append(out, c14PushCase{k, pol, b, cp, pre, nn, true})
+							}
 						}
 					}
 				}
@@ -437,6 +472,7 @@ func c14PolMachine(c *Ctx, kind string) *Machine[*polInst] {
 
 func init() {
 	register(&Check{ID: "C14", Engine: "A/B", Run: func(c *Ctx) {
+		installLockModel()
 		cases := c14PushCases(c)
 		parallelFor(len(cases), func(i int) { c14PushRun(c, cases[i], true) })
 		c.States.Add(int64(len(cases)))
